@@ -163,6 +163,13 @@ class C19(Prop):
         for sub, text in (("v1", buf.getvalue()), ("v2", clean), ("v3", buf.getvalue())):
             (d / sub).mkdir(exist_ok=True)
             (d / sub / "same.agp").write_text(text)
+        # the same AGP with other legal component types than W on its sequence lines (A D F G O P, as in INSDC
+        # files): sequence lines all the same, the pairs reported must not change
+        letters = iter("ADFGOP" * (buf.getvalue().count("\tW\t") // 6 + 1))
+        other = re.sub(r"\tW\t", lambda m: f"\t{next(letters)}\t", buf.getvalue())
+        r4 = T.af_invoke(["--qc-overlaps", "-i", "AGP"], stdin=other, in_fmt="AGP", qc=True)
+        out["invocations"].append(r4)
+        out["other_types"] = {"exit": r4["exit"], "pairs": conv(re.findall(pat, r4["err"]))}
         out["samename"] = []
         for args in (["--qc-overlaps", str(d / "v1" / "same.agp"), str(d / "v2" / "same.agp")],
                      ["--qc-overlaps", "--name", "given", str(d / "first.agp"), str(d / "v2" / "same.agp")],
@@ -272,6 +279,10 @@ class C19(Prop):
             wantsec = [[n, wantcli] for n in ("first", "second")] if wantcli else []
             if [[n, sorted(ps)] for n, ps in m["sections"]] != wantsec:
                 return f"asm-format on two files reported {m['sections']}, expected {wantsec}"
+            ot = c.get("other_types")
+            if ot is not None and (ot["exit"] != 0 or sorted(ot["pairs"]) != wantcli):
+                return (f"with component types A/D/F/G/O/P instead of W on the sequence lines asm-format reported "
+                        f"{ot['pairs']} (exit {ot['exit']}), expected {wantcli}")
             for (nm, times), sn in zip((("same", 1), ("given", 1), ("same", 2)), c.get("samename", [])):
                 if sn["exit"] != 0 or not sn["stdout_ok"]:
                     return f"asm-format --qc-overlaps on two same-named inputs failed or altered output: exit {sn['exit']}"
